@@ -17,6 +17,7 @@ use serde::{Deserialize, Serialize};
 /// A code item. Lists are in textual order: element 0 is printed first and
 /// executes first. Floats travel as bit patterns.
 #[derive(Serialize, Deserialize, Clone, Debug, PartialEq)]
+#[serde(into = "FlatISpec", from = "FlatISpec")]
 pub enum ISpec {
     L(Vec<ISpec>),
     I(String),
@@ -27,6 +28,87 @@ pub enum ISpec {
     BV(Vec<bool>),
     IV(Vec<i32>),
     FV(Vec<u32>),
+}
+
+/// Wire form of an ISpec: a flat token list (`Open` ... `Close` for lists), so
+/// that deeply nested programs do not nest the JSON (serde_json and the Python
+/// driver both limit recursion depth).
+#[derive(Serialize, Deserialize, Clone, Debug, PartialEq)]
+pub enum Tok {
+    Open,
+    Close,
+    I(String),
+    N(String),
+    Int(i32),
+    F(u32),
+    B(bool),
+    BV(Vec<bool>),
+    IV(Vec<i32>),
+    FV(Vec<u32>),
+}
+
+#[derive(Serialize, Deserialize, Clone, Debug, PartialEq)]
+pub struct FlatISpec(pub Vec<Tok>);
+
+fn flatten(x: &ISpec, out: &mut Vec<Tok>) {
+    match x {
+        ISpec::L(v) => {
+            out.push(Tok::Open);
+            for c in v {
+                flatten(c, out);
+            }
+            out.push(Tok::Close);
+        }
+        ISpec::I(n) => out.push(Tok::I(n.clone())),
+        ISpec::N(n) => out.push(Tok::N(n.clone())),
+        ISpec::Int(i) => out.push(Tok::Int(*i)),
+        ISpec::F(b) => out.push(Tok::F(*b)),
+        ISpec::B(b) => out.push(Tok::B(*b)),
+        ISpec::BV(v) => out.push(Tok::BV(v.clone())),
+        ISpec::IV(v) => out.push(Tok::IV(v.clone())),
+        ISpec::FV(v) => out.push(Tok::FV(v.clone())),
+    }
+}
+
+impl From<ISpec> for FlatISpec {
+    fn from(x: ISpec) -> FlatISpec {
+        let mut out = vec![];
+        flatten(&x, &mut out);
+        FlatISpec(out)
+    }
+}
+
+impl From<FlatISpec> for ISpec {
+    fn from(f: FlatISpec) -> ISpec {
+        // iterative: a stack of open lists
+        let mut stack: Vec<Vec<ISpec>> = vec![vec![]];
+        for t in f.0 {
+            match t {
+                Tok::Open => stack.push(vec![]),
+                Tok::Close => {
+                    let done = stack.pop().unwrap_or_default();
+                    if stack.is_empty() {
+                        stack.push(vec![]);
+                    }
+                    stack.last_mut().unwrap().push(ISpec::L(done));
+                }
+                Tok::I(n) => stack.last_mut().unwrap().push(ISpec::I(n)),
+                Tok::N(n) => stack.last_mut().unwrap().push(ISpec::N(n)),
+                Tok::Int(i) => stack.last_mut().unwrap().push(ISpec::Int(i)),
+                Tok::F(b) => stack.last_mut().unwrap().push(ISpec::F(b)),
+                Tok::B(b) => stack.last_mut().unwrap().push(ISpec::B(b)),
+                Tok::BV(v) => stack.last_mut().unwrap().push(ISpec::BV(v)),
+                Tok::IV(v) => stack.last_mut().unwrap().push(ISpec::IV(v)),
+                Tok::FV(v) => stack.last_mut().unwrap().push(ISpec::FV(v)),
+            }
+        }
+        let mut top = stack.into_iter().next().unwrap_or_default();
+        if top.len() == 1 {
+            top.pop().unwrap()
+        } else {
+            ISpec::L(top)
+        }
+    }
 }
 
 impl ISpec {
